@@ -172,6 +172,9 @@ func c03Drive(r *obs.Run, kind string, data []byte, origin string) c03Outcome {
 	if p.noTime {
 		r.Count("gff_readers_without_time_format", 1)
 	}
+	if p.picky {
+		r.Count("readers_with_a_template_that_refuses_some_names", 1)
+	}
 	out, f := c03Core(kind, data, origin, src, p)
 	c03Book(r, out, f)
 	return out
@@ -198,7 +201,9 @@ type c03Pick struct {
 	noTime bool // gff: date parsing switched off
 	// fasta: the reader's IDPrefix, when not the default
 	idPrefix string
-	past     bool // the caller skips bad records: it goes on calling after the errors until io.EOF (or the call bound)
+	// fasta, fastq: a template that refuses some names and descriptions
+	picky bool
+	past  bool // the caller skips bad records: it goes on calling after the errors until io.EOF (or the call bound)
 }
 
 var c03Encodings = []alphabet.Encoding{alphabet.Sanger, alphabet.Sanger, alphabet.Solexa, alphabet.Illumina1_3, alphabet.Illumina1_5, alphabet.Illumina1_8, alphabet.Illumina1_9, alphabet.None}
@@ -220,6 +225,7 @@ func c03DrawPick(rng *rand.Rand, kind string, mayGoPast bool) c03Pick {
 		p.noTime = rng.Intn(3) == 0 // date parsing switched off: an incomplete ##date line is still incomplete
 	}
 	p.past = mayGoPast && rng.Intn(8) == 0
+	p.picky = (kind == "fasta" || kind == "fastq") && rng.Intn(8) == 0
 	return p
 }
 
@@ -241,6 +247,9 @@ func c03Core(kind string, data []byte, origin string, src *chunkReader, p c03Pic
 		if p.tmpl == 1 {
 			tmpl = linear.NewQSeq("", nil, alphabet.Protein, alphabet.Sanger)
 		}
+		if p.picky {
+			tmpl = c03Picky{linear.NewQSeq("", nil, alphabet.DNA, alphabet.Sanger)}
+		}
 		rd := fasta.NewReader(in, tmpl)
 		if p.idPrefix != "" {
 			rd.IDPrefix = []byte(p.idPrefix)
@@ -252,6 +261,9 @@ func c03Core(kind string, data []byte, origin string, src *chunkReader, p c03Pic
 			tmpl = linear.NewQSeq("", nil, alphabet.DNA, c03Encodings[p.tmpl])
 		} else {
 			tmpl = linear.NewSeq("", nil, alphabet.DNA)
+		}
+		if p.picky {
+			tmpl = c03Picky{linear.NewQSeq("", nil, alphabet.DNA, alphabet.Sanger)}
 		}
 		rd := fastq.NewReader(in, tmpl)
 		read = func() (interface{}, error) { s, err := rd.Read(); return s, err }
@@ -594,7 +606,7 @@ func bedLine(rng *rand.Rand, n int, mod func(f []string) []string) string {
 
 var c03Catalogue = func() []c03Cat {
 	var cat []c03Cat
-	bads := []string{"abc", "", "1.5", "1e3", "x1", "9223372036854775808", "--1"}
+	bads := []string{"abc", "", "1.5", "1e3", "x1", "9223372036854775808", "--1", "-", "+", "-+1", "1-"}
 	for k := 1; k <= 7; k++ {
 		k := k
 		cat = append(cat, c03Cat{"gff", fmt.Sprintf("gff line with %d columns", k), func(rng *rand.Rand) string {
@@ -623,7 +635,7 @@ var c03Catalogue = func() []c03Cat {
 		return gffLine(rng, func(f []string) []string { f[5] = []string{"abc", "", "..", "1,5"}[rng.Intn(4)]; return f })
 	}})
 	for _, m := range []string{"##gff-version", "##gff-version x", "##date", "##Type", "##type", "##source-version", "##sequence-region", "##sequence-region a", "##sequence-region a 1",
-		"##sequence-region a 0 5", "##sequence-region a 00 5", "##sequence-region a x 5", "##sequence-region a 1 y", "##DNA", "##RNA", "##Protein", "##dna", "##"} {
+		"##sequence-region a 0 5", "##sequence-region a 00 5", "##sequence-region a x 5", "##sequence-region a 1 y", "##sequence-region a 1 -", "##sequence-region a - 5", "##sequence-region a 1 +", "##gff-version -", "##gff-version +", "##DNA", "##RNA", "##Protein", "##dna", "##"} {
 		m := m
 		cat = append(cat, c03Cat{"gff", "gff metadata line " + m, func(*rand.Rand) string { return m }})
 	}
